@@ -154,7 +154,43 @@ def _bash_printer_skips(repo, res):
     SK.skips_rule(repo, res, tables.load("skips")["row"], only={q for q in SK.printers(repo) if q.startswith("bash::")})
 
 
+LOOPS = {
+    # shell: (function, regex with groups start / comparison operator, what the bound is compared with)
+    "zsh": ("zsh::write_subword_fn", r"for \(\(literal_id = (\d+); literal_id (<=|<|-le|-lt) \$#subword_literals; literal_id\+\+\)\)"),
+    "fish": ("fish::write_subword_fn", r"set literal_id (\d+)\n\s*while test \$literal_id (-le|-lt|<=|<) \(count \$subword_literals\)"),
+    "pwsh": ("pwsh::write_subword_fn", r"for \(\$literal_id = (\d+); \$literal_id (-lt|-le|<|<=) \$literals\.Count; \$literal_id\+\+\)"),
+}
+
+
+def sibling_loop_bounds(repo, res, rule="SIBLINGS"):
+    """the literal scan of each sibling matcher visits EVERY literal id, first to last: it starts at the module's ARRAY_START and its
+    bound includes the last element (`<=`/-le count when arrays start at 1, `<`/-lt count when they start at 0).  An exclusive
+    bound on a 1-based array never tries the last literal -- the shortest value of a prefix chain."""
+    from vlib import rules_emit as RE_
+
+    for sh, (fq, pat) in LOOPS.items():
+        fn = repo.fn(fq)
+        base = RE_.module_base(repo, sh)
+        if fn is None or base is None:
+            res.undecided(rule, f"{rule}:{sh}:literal-loop-bounds", f"{fq} or {sh}::ARRAY_START not found")
+            continue
+        envs = A.collect_envs(fn)
+        text = ""
+        for s in TM.fmt_sites(fn, envs):
+            if s.macro in ("write", "writeln"):
+                text += "".join(p[1] if p[0] == "lit" else "\x00" for p in s.pieces) + "\n"
+        ms = re.findall(pat, text)
+        if len(ms) != 1:
+            res.undecided(rule, f"{rule}:{sh}:literal-loop-bounds", f"{len(ms)} loops recognised as the literal scan of {fq}")
+            continue
+        start, op = int(ms[0][0]), ms[0][1]
+        inclusive = op in ("<=", "-le")
+        ok = start == base and inclusive == (base == 1)
+        res.check(ok, rule, f"{rule}:{sh}:literal-loop-bounds", f"ids visited from {start} while id {op} count; arrays of {sh} start at {base}" + ("" if ok else ": the scan does not cover exactly the ids first..last"), fn.loc())
+
+
 def run(repo, res, tier):
+    sibling_loop_bounds(repo, res)
     _bash_printer_skips(repo, res)
     sortlen(repo, res)
     sk_bash.sub_rule(repo, res, tier)
@@ -163,5 +199,5 @@ def run(repo, res, tier):
     res.floor("SORTLEN", res.count("SORTLEN"), 2)
     res.floor("SK-SUB", res.count("SK-SUB"), 10)
     res.floor("SK-MATCHFN", res.count("SK-MATCHFN"), 11)
-    res.floor("SIBLINGS", res.count("SIBLINGS"), 6)
+    res.floor("SIBLINGS", res.count("SIBLINGS"), 9)
     res.advisory("bash: the command-candidate loop inside the within-word matcher (`break 3` when a candidate extends the typed remainder) has no mode guard; overlapping outputs of an external command inside a word are outside C12's wording (values of the grammar)")
